@@ -375,9 +375,9 @@ func (c *call) predLit() string {
 	b := c.itemLit('b')
 	switch c.pred {
 	case "eq":
-		return "(lambda (e) (equal e " + b + "))"
+		return "(lambda (v) (equal v " + b + "))"
 	case "gt":
-		return "(lambda (e) (c14-lt " + b + " e))"
+		return "(lambda (v) (c14-lt " + b + " v))"
 	case "eq2":
 		return lamEQV
 	case "lt2", "lt":
@@ -452,7 +452,7 @@ func (c *call) form() string {
 func (c *call) mapFnLit() string {
 	switch c.pred {
 	case "wrap":
-		return "(lambda (e) (list e))"
+		return "(lambda (v) (list v))"
 	case "up":
 		return "'char-upcase"
 	case "pair2":
